@@ -1,24 +1,15 @@
-"""Fragment table for tools/py2v.py: which pieces of /repo are regenerated as Gallina on
-every run, and the hand-written meaning of the few NumPy expressions inside them."""
+"""Fragment tables for tools/py2v.py, assembled from tools/frags/*.py (one module per area, each
+defining FILES = {generated file name: [fragment specs]})."""
+import importlib.util
+import os
 
-SL = "sparse/numba_backend/_slicing.py"
-
-FILES = {
-    "G_slicing.v": [
-        dict(name="g_replace_none", file=SL, func="replace_none"),
-        dict(name="g_posify_index", file=SL, func="posify_index", callable=False,
-             extern={
-                 "tuple(map(posify_index, shape, ind))": "Raise NotImplementedError",
-                 "np.asanyarray(ind)": "Ok ind",
-                 "np.where(ind < 0, ind + shape, ind)": "ext_where_neg ind shape",
-             }),
-        dict(name="g_clip_slice", file=SL, func="clip_slice"),
-        dict(name="g_check_index", file=SL, func="check_index",
-             extern={
-                 "np.asanyarray(ind)": "Ok ind",
-                 "np.issubdtype(x.dtype, np.integer) and ((x >= dimension) | (x < -dimension)).any()":
-                     "ext_int_arr_oob x dimension",
-                 "x.dtype == np.bool_ and len(x) != dimension": "ext_bool_arr_len_ne x dimension",
-             }),
-    ],
-}
+FILES = {}
+_d = os.path.join(os.path.dirname(os.path.abspath(__file__)), "frags")
+for _fn in sorted(os.listdir(_d)):
+    if _fn.endswith(".py") and not _fn.startswith("_"):
+        _sp = importlib.util.spec_from_file_location("frags_" + _fn[:-3], os.path.join(_d, _fn))
+        _m = importlib.util.module_from_spec(_sp)
+        _sp.loader.exec_module(_m)
+        for _k, _v in _m.FILES.items():
+            assert _k not in FILES, _k
+            FILES[_k] = _v
